@@ -91,6 +91,19 @@ Theorem C28_dirs_total : forall args st, inv st -> bi_dirs args st <> Panic.
 Proof. exact dirs_total. Qed.
 Print Assumptions C28_dirs_total.
 
+(* echo's and pwd's option loops, unset's option loop + cutElemSubscript per name (scalar variables) *)
+Theorem C28_echo_total : forall format args st, inv st -> bi_echo format args st <> Panic.
+Proof. exact echo_total. Qed.
+Print Assumptions C28_echo_total.
+
+Theorem C28_pwd_total : forall eval_symlinks args st, inv st -> bi_pwd eval_symlinks args st <> Panic.
+Proof. exact pwd_total. Qed.
+Print Assumptions C28_pwd_total.
+
+Theorem C28_unset_total : forall valid_name args st, inv st -> bi_unset valid_name args st <> Panic.
+Proof. exact unset_total. Qed.
+Print Assumptions C28_unset_total.
+
 (* $1 .. $9 *)
 Theorem C28_positional_total : forall c st, positional c st <> Panic.
 Proof. exact positional_total. Qed.
@@ -123,9 +136,9 @@ Print Assumptions C28_slice_elems_total.
    wait after background jobs; ...) from any state satisfying inv ends in Ok (no Panic, no out of fuel)
    in a state satisfying inv *)
 Theorem C28_history_total :
-  forall atoi atoi64 itoa runes_of str_of_runes index_rune valid_name change_dir cs st, inv st ->
+  forall atoi atoi64 itoa runes_of str_of_runes index_rune valid_name change_dir format eval_symlinks cs st, inv st ->
   exists st' ev code,
-    run_calls atoi atoi64 itoa runes_of str_of_runes index_rune valid_name change_dir cs st = Ok (st', ev, code)
+    run_calls atoi atoi64 itoa runes_of str_of_runes index_rune valid_name change_dir format eval_symlinks cs st = Ok (st', ev, code)
     /\ inv st'.
 Proof. exact history_total. Qed.
 Print Assumptions C28_history_total.
